@@ -39,7 +39,7 @@ def run(chk: Check) -> int:
         if col.enough():
             break
         rng = chk.rng("case", k)
-        spec = I.random_spec(rng, faults=rng.random() < 0.35, big=not chk.quick)
+        spec = I.random_spec(rng, faults=rng.random() < 0.35, big=not chk.quick, elastic_p=0.15)
         col.add(I.safe_run(col, spec, I.RandomSched(rng), f"seed{chk.seed}/{k}"), f"seed{chk.seed}/{k}")
     # --- exhaustive small scope: every schedule (every ordered sub-list of the futures in flight
     #     at every wait, cancellation at every wait and -- BlockingRunner -- inside every executor.submit
